@@ -65,6 +65,8 @@ Natives == <<
   NatB("startswith", 1), NatB("endswith", 1), NatB("ltrimstr", 1), NatB("rtrimstr", 1),
   NatB("explode", 0), NatB("implode", 0), NatB("ascii_downcase", 0), NatB("ascii_upcase", 0), NatB("utf8bytelength", 0),
   NatB("floor", 0), NatB("round", 0), NatB("ceil", 0),
+  NatB("isnan", 0), NatB("isinfinite", 0), NatB("isfinite", 0), NatB("isnormal", 0),
+  NatB("trim", 0), NatB("ltrim", 0), NatB("rtrim", 0), NatB("tonumber", 0), NatB("toboolean", 0),
   NatB("first", 0), NatB("last", 0), NatB("sort", 0), NatB("reverse", 0), NatB("tobytes", 0), NatB("isempty", 1)
 >>
 
@@ -148,6 +150,11 @@ Defs == <<
   TDef("strings", <<>>, TC1("select", TC0("isstring"))),
   TDef("arrays", <<>>, TC1("select", TC0("isarray"))),
   TDef("objects", <<>>, TC1("select", TC0("isobject"))),
+  \* nan == 0 / 0, infinite == 1 / 0; finites / normals select by isfinite / isnormal
+  TDef("nan", <<>>, TBin("/", TNum(0), TNum(0))),
+  TDef("infinite", <<>>, TBin("/", TNum(1), TNum(0))),
+  TDef("finites", <<>>, TC1("select", TC0("isfinite"))),
+  TDef("normals", <<>>, TC1("select", TC0("isnormal"))),
   TDef("iterables", <<>>, TC1("select", TBin(">=", TId, TArr0))),
   TDef("scalars", <<>>, TC1("select", TBin("<", TId, TArr0))),
   TDef("type", <<>>,
